@@ -2,128 +2,136 @@ package mc
 
 import "io"
 
-// Pipe is a port of io.Pipe (go1.23 src/io/pipe.go) onto controlled
-// primitives: same blocking behaviour, same errors.
-
-type onceError struct {
-	Mutex
-	err error
-}
-
-func (a *onceError) Store(err error) {
-	a.Lock()
-	defer a.Unlock()
-	if a.err != nil {
-		return
-	}
-	a.err = err
-}
-func (a *onceError) Load() error {
-	a.Lock()
-	defer a.Unlock()
-	return a.err
-}
-
+// Pipe is an atomic model of io.Pipe (go1.23 src/io/pipe.go): a Write offers
+// its bytes and blocks until readers have consumed all of them or the pipe is
+// closed; a Read blocks until an offer or a close; once closed, reads fail even
+// if an offer is pending (the reader checks done first); a write that was fully
+// consumed succeeds even if the pipe is closed right after. A zero-length Write
+// still needs one Read to pick it up. Every operation is one or two scheduling
+// points instead of the five to seven of a literal port.
 type pipe struct {
-	wrMu Mutex
-	wrCh *Chan[[]byte]
-	rdCh *Chan[int]
-
-	once Once
-	done *Chan[struct{}]
-	rerr onceError
-	werr onceError
+	id      uint64
+	st      Stamp
+	wlocked bool
+	offer   []byte
+	offered bool
+	closed  bool
+	rerr    error
+	werr    error
 }
 
-func (p *pipe) read(b []byte) (n int, err error) {
-	if Select(true, RecvCase(p.done)) == 0 {
-		return 0, p.readCloseError()
-	}
-	wr := RecvCase(p.wrCh)
-	switch Select(false, wr, RecvCase(p.done)) {
-	case 0:
-		bw := wr.Val
-		nr := copy(b, bw)
-		Send(p.rdCh, nr)
-		return nr, nil
-	default:
-		return 0, p.readCloseError()
-	}
+type opCond struct {
+	d    string
+	cond func() bool
 }
 
-func (p *pipe) closeRead(err error) error {
-	if err == nil {
-		err = io.ErrClosedPipe
+func (o opCond) enabled(s *Sched, t *Task, out []Alt) []Alt {
+	if o.cond() {
+		out = append(out, Alt{T: t})
 	}
-	p.rerr.Store(err)
-	p.once.Do(func() { Close(p.done) })
-	return nil
+	return out
 }
+func (o opCond) String() string { return o.d }
 
-func (p *pipe) write(b []byte) (n int, err error) {
-	if Select(true, RecvCase(p.done)) == 0 {
-		return 0, p.writeCloseError()
-	}
-	p.wrMu.Lock()
-	defer p.wrMu.Unlock()
-	for once := true; once || len(b) > 0; once = false {
-		switch Select(false, SendCase(p.wrCh, b), RecvCase(p.done)) {
-		case 0:
-			nw := Recv(p.rdCh)
-			b = b[nw:]
-			n += nw
-		default:
-			return n, p.writeCloseError()
-		}
-	}
-	return n, nil
-}
-
-func (p *pipe) closeWrite(err error) error {
-	if err == nil {
-		err = io.EOF
-	}
-	p.werr.Store(err)
-	p.once.Do(func() { Close(p.done) })
-	return nil
+func (p *pipe) touch(t *Task, kind int) {
+	t.tick(kChan, p.id, kind)
+	t.observe(&p.st)
+	p.st = t.st
 }
 
 func (p *pipe) readCloseError() error {
-	rerr := p.rerr.Load()
-	if werr := p.werr.Load(); rerr == nil && werr != nil {
-		return werr
+	if p.rerr == nil && p.werr != nil {
+		return p.werr
 	}
 	return io.ErrClosedPipe
 }
 
 func (p *pipe) writeCloseError() error {
-	werr := p.werr.Load()
-	if rerr := p.rerr.Load(); werr == nil && rerr != nil {
-		return rerr
+	if p.werr == nil && p.rerr != nil {
+		return p.rerr
 	}
 	return io.ErrClosedPipe
 }
 
-type PipeReader struct{ pipe }
+func (p *pipe) read(b []byte) (int, error) {
+	s, t := cur()
+	s.yield(t, opCond{"pipe.Read", func() bool { return p.offered || p.closed }})
+	p.touch(t, 1)
+	if p.closed {
+		return 0, p.readCloseError()
+	}
+	n := copy(b, p.offer)
+	p.offer = p.offer[n:]
+	if len(p.offer) == 0 {
+		p.offered = false
+	}
+	return n, nil
+}
 
-func (r *PipeReader) Read(data []byte) (n int, err error) { return r.pipe.read(data) }
+func (p *pipe) write(b []byte) (int, error) {
+	s, t := cur()
+	s.yield(t, opCond{"pipe.Write(begin)", func() bool { return !p.wlocked }})
+	p.touch(t, 2)
+	if p.closed {
+		return 0, p.writeCloseError()
+	}
+	total := len(b)
+	p.wlocked = true
+	p.offer, p.offered = b, true
+	s.yield(t, opCond{"pipe.Write(wait)", func() bool { return !p.offered || p.closed }})
+	p.touch(t, 3)
+	p.wlocked = false
+	if !p.offered {
+		return total, nil
+	}
+	n := total - len(p.offer)
+	p.offer, p.offered = nil, false
+	return n, p.writeCloseError()
+}
+
+func (p *pipe) close(isWriter bool, err error) error {
+	s, t := cur()
+	if s.aborting {
+		return nil
+	}
+	s.yield(t, opSimple{"pipe.Close"})
+	p.touch(t, 4)
+	if isWriter {
+		if err == nil {
+			err = io.EOF
+		}
+		if p.werr == nil {
+			p.werr = err
+		}
+	} else {
+		if err == nil {
+			err = io.ErrClosedPipe
+		}
+		if p.rerr == nil {
+			p.rerr = err
+		}
+	}
+	p.closed = true
+	return nil
+}
+
+type PipeReader struct{ p *pipe }
+
+func (r *PipeReader) Read(data []byte) (n int, err error) { return r.p.read(data) }
 func (r *PipeReader) Close() error                        { return r.CloseWithError(nil) }
-func (r *PipeReader) CloseWithError(err error) error      { return r.pipe.closeRead(err) }
+func (r *PipeReader) CloseWithError(err error) error      { return r.p.close(false, err) }
 
-type PipeWriter struct{ r PipeReader }
+type PipeWriter struct{ p *pipe }
 
-func (w *PipeWriter) Write(data []byte) (n int, err error) { return w.r.pipe.write(data) }
+func (w *PipeWriter) Write(data []byte) (n int, err error) { return w.p.write(data) }
 func (w *PipeWriter) Close() error                         { return w.CloseWithError(nil) }
-func (w *PipeWriter) CloseWithError(err error) error       { return w.r.pipe.closeWrite(err) }
+func (w *PipeWriter) CloseWithError(err error) error       { return w.p.close(true, err) }
 
 // Pipe replaces io.Pipe.
 func Pipe() (*PipeReader, *PipeWriter) {
-	pw := &PipeWriter{r: PipeReader{pipe: pipe{
-		wrCh: NewChan[[]byte]().SetLabel("pipe.wr"),
-		rdCh: NewChan[int]().SetLabel("pipe.rd"),
-		done: NewChan[struct{}]().SetLabel("pipe.done"),
-	}}}
-	return &pw.r, pw
+	_, t := cur()
+	p := &pipe{id: t.newObjID()}
+	return &PipeReader{p}, &PipeWriter{p}
 }
 
 // SetFinalizer replaces runtime.SetFinalizer: recorded, never run (GC is not modelled).
